@@ -189,15 +189,23 @@ async def execute(gen, ops, w: SockWorld, run: Run, counters=None):
             cache = run.__dict__.setdefault("policies", {})
             policy = cache.get(tuple(pol))
             if policy is None:
-                # (built by keyword or, as documented, positionally: retries, lifetime)
-                if (zlib.crc32(repr(ops).encode()) + len(cache)) % 2:
-                    policy = psock.RetryPolicy(pol[0], pol[1])
+                # (built by keyword or, as documented, positionally: retries, lifetime; a whole
+                # number of seconds is written as an int by every other script)
+                hv = zlib.crc32(repr(ops).encode()) + len(cache)
+                life = pol[1]
+                if (hv // 2) % 2 and float(life).is_integer():
+                    life = int(life)
+                    log.add("SCRIPT.policy_int_lifetime", pol=list(pol))
+                if hv % 2:
+                    policy = psock.RetryPolicy(pol[0], life)
                     log.add("SCRIPT.policy_positional", pol=list(pol))
                 else:
-                    policy = psock.RetryPolicy(max_retries=pol[0], max_lifetime=pol[1])
+                    policy = psock.RetryPolicy(max_retries=pol[0], max_lifetime=life)
                 cache[tuple(pol)] = policy
             else:
-                policy.max_retries, policy.max_lifetime = pol[0], pol[1]
+                policy.max_retries = pol[0]
+                if policy.max_lifetime != pol[1]:
+                    policy.max_lifetime = pol[1]
             if rec.get("mode") in ("hdr", "hdr_same"):
                 # the other public entry point: caller-supplied header
                 reg = H.registry(gen)
